@@ -1,41 +1,66 @@
-(* Row-level theorems for every non-JSON column type (the DECIMAL cell lemma has landed). *)
-From GB Require Import Base.Prelude Model.Header Model.Events Model.Cell Model.Rbr Model.Streamer.
+(* Row-level theorems for every column type: the DECIMAL and the JSON cell lemmas have landed
+   (Proofs/CellAll.v cell_ok_all; JSON from C14_json_cell). *)
+From GB Require Import Base.Prelude Model.Header Model.Events Model.Cell Model.Json Model.Rbr Model.Streamer.
 From GB Require Import Spec.EncHeader Spec.Values Spec.EncEvent Spec.Expect.
 From GB Require Import Proofs.CellCommon Proofs.CellAll Proofs.CellFamilies Proofs.ImageProofs Proofs.RowsProofs.
 Open Scope Z_scope.
 
+(* every column type has valid parameters (Spec.Values.wf_type); JSON columns included *)
+Definition wf_cols (cols : list (coltype * bool)) : Prop :=
+  Forall (fun p => wf_type (fst p) = true) cols.
+
+(* the JSON printer oracle matters only when the table has a JSON column: there it is the model of
+   printJSONData with the 'E' formatting oracle of the specification's rendering *)
+Definition jsonp_for_cols (efmt : Z -> bytes) (jsonp : bytes -> res bytes) (cols : list (coltype * bool)) : Prop :=
+  Forall (fun p => not_json (fst p) = true) cols \/ jsonp = print_json efmt.
+
+Lemma wf_cols_family_gen ffmt tz efmt jsonp cols :
+  (forall v, -86400 <= tz v <= 86400) -> wf_cols cols -> jsonp_for_cols efmt jsonp cols ->
+  family_cols ffmt tz efmt jsonp cols.
+Proof.
+  intros Htz H J. unfold wf_cols, family_cols in *. rewrite Forall_forall in *.
+  intros p Hp. split; [exact (H p Hp)|].
+  intros uns v Ht Hv. apply cell_ok_all; try assumption.
+  destruct J as [J | ->]; [left; rewrite Forall_forall in J; exact (J p Hp)|right; reflexivity].
+Qed.
+
+(* tables without JSON columns: any printer *)
 Definition nonjson_cols (cols : list (coltype * bool)) : Prop :=
   Forall (fun p => wf_type (fst p) = true /\ not_json (fst p) = true) cols.
 
-Lemma nonjson_cols_family ffmt tz jsonp cols :
-  (forall v, -86400 <= tz v <= 86400) -> nonjson_cols cols -> family_cols ffmt tz jsonp cols.
+Lemma nonjson_cols_family ffmt tz efmt jsonp cols :
+  (forall v, -86400 <= tz v <= 86400) -> nonjson_cols cols -> family_cols ffmt tz efmt jsonp cols.
 Proof.
-  intros Htz H. unfold nonjson_cols, family_cols in *. rewrite Forall_forall in *.
-  intros p Hp. destruct (H p Hp) as [W N]. split; [exact W|].
-  intros uns v Ht Hv. apply cell_ok_all; assumption.
+  intros Htz H. unfold nonjson_cols in H.
+  apply wf_cols_family_gen; [exact Htz| |left]; eapply Forall_impl; try exact H; intros p [W N]; assumption.
 Qed.
 
+Lemma wf_cols_family_json ffmt tz efmt cols :
+  (forall v, -86400 <= tz v <= 86400) -> wf_cols cols -> family_cols ffmt tz efmt (print_json efmt) cols.
+Proof. intros Htz H. apply wf_cols_family_gen; [exact Htz|exact H|right; reflexivity]. Qed.
+
+(* Rows does not decode cells: no oracle occurs in the statement *)
 Theorem rows_roundtrip_all c v h cols pt t r crc :
-  wf_cfg c = true -> nonjson_cols cols -> wf_rows_def cols r ->
+  wf_cfg c = true -> wf_cols cols -> wf_rows_def cols r ->
   map fst (td_cols t) = map fst cols ->
   h_type h = rows_type c (rd_kind r) ->
   (do ev <- strip_checksum56 (expect_format c v) (enc_ev c h (enc_rows_body c (map fst cols) r) crc);
    ev_rows (expect_format c v) (expect_table_map pt t) ev) = Ok (expect_rows c (map fst cols) r).
 Proof.
   intros Wc P Wr E Hh.
-  apply (rows_roundtrip_tm (fun _ _ => []) (fun _ => 0) (fun _ => Err EJson)); auto.
-  apply nonjson_cols_family; [intros; lia|exact P].
+  apply (rows_roundtrip_tm (fun _ _ => []) (fun _ => 0) (fun _ => []) (print_json (fun _ => []))); auto.
+  apply wf_cols_family_json; [intros; lia|exact P].
 Qed.
 
-Theorem image_consumed_all pc pn ffmt tz jsonp tm ti specs img rest :
-  (forall v, -86400 <= tz v <= 86400) -> nonjson_cols (specs_cols specs) ->
+Theorem image_consumed_all pc pn ffmt tz efmt jsonp tm ti specs img rest :
+  (forall v, -86400 <= tz v <= 86400) -> wf_cols (specs_cols specs) -> jsonp_for_cols efmt jsonp (specs_cols specs) ->
   tm_types tm = map (fun s => code_of (cs_type s)) specs ->
   tm_meta tm = map (fun s => meta_of (cs_type s)) specs ->
   ti_cols ti = map (fun s => (cs_name s, cs_uns s)) specs ->
   wf_image (specs_cols specs) (present_bits img) img = true ->
   image_of ffmt tz jsonp tm ti (expect_bitmap pc (present_bits img)) (expect_bitmap pn (null_bits img))
            (Some (image_cells (map cs_type specs) img ++ rest))
-  = Ok (Some (expect_columns ffmt tz specs img)).
+  = Ok (Some (expect_columns ffmt tz efmt specs img)).
 Proof.
-  intros Htz P. apply image_consumed. apply nonjson_cols_family; assumption.
+  intros Htz P J. apply image_consumed. apply wf_cols_family_gen; assumption.
 Qed.
